@@ -2363,7 +2363,9 @@ def parse_item(line_tokens):
             name, *args = tokens
             name = name.lower()
             return PseudoInstruction(line, name, *args)
-        if tokens[0].lower() in BASE_OFFSET_INSTRUCTIONS and tokens[3] == '(':
+        if tokens[0].lower() in BASE_OFFSET_INSTRUCTIONS and len(tokens) > 3 and tokens[3] == '(':
+            if len(tokens) != 6:
+                raise AssemblerError('base offset form must be "offset(reg)"', line)
             name, rd, offset, _, rs1, _ = tokens
             imm = [offset]
         else:
@@ -2378,7 +2380,9 @@ def parse_item(line_tokens):
         return IETypeInstruction(line, name)
     # s-type instructions (all are base offset insts)
     elif head in S_TYPE_INSTRUCTIONS:
-        if tokens[3] == '(':
+        if len(tokens) > 3 and tokens[3] == '(':
+            if len(tokens) != 6:
+                raise AssemblerError('base offset form must be "offset(reg)"', line)
             name, rs2, offset, _, rs1, _ = tokens
             imm = [offset]
         else:
@@ -2513,7 +2517,9 @@ def parse_item(line_tokens):
         return CIWTypeInstruction(line, name, rd, imm)
     # cl-type instructions (all are base offset insts)
     elif head in CL_TYPE_INSTRUCTIONS:
-        if tokens[3] == '(':
+        if len(tokens) > 3 and tokens[3] == '(':
+            if len(tokens) != 6:
+                raise AssemblerError('base offset form must be "offset(reg)"', line)
             name, rd, offset, _, rs1, _ = tokens
             imm = [offset]
         else:
@@ -2523,7 +2529,9 @@ def parse_item(line_tokens):
         return CLTypeInstruction(line, name, rd, rs1, imm)
     # cs-type instructions (all are base offset insts)
     elif head in CS_TYPE_INSTRUCTIONS:
-        if tokens[3] == '(':
+        if len(tokens) > 3 and tokens[3] == '(':
+            if len(tokens) != 6:
+                raise AssemblerError('base offset form must be "offset(reg)"', line)
             name, rs2, offset, _, rs1, _ = tokens
             imm = [offset]
         else:
